@@ -68,6 +68,7 @@ type propCfg struct {
 	stubs       []string
 	procShrink  int // maximum fresh-process shrink attempts for process-level failures
 	rlimitAS    uint64
+	runTimeout  time.Duration // per-execution limit inside the worker (default 120s)
 }
 
 var realComponents = []string{"github.com/zclconf/go-cty/cty (instrumented copy of the working tree)", "cty/set", "cty/convert", "cty/function", "cty/function/stdlib",
@@ -101,7 +102,7 @@ var props = map[string]*propCfg{
 			"paths whose keys are unknown or marked, and steps through unknown containers, are outside the oracle (documented as unsupported); attribute steps use normalized names",
 			"two indistinguishable unknown members of one set would share one path; generated values keep one of them"},
 		stubs: []string{"Walk / Transform callbacks and Transformer (spies with injected prune, failure, replacement)", "caller of the PathSet API (seeded history)"}},
-	"C17": {quickRuns: 1 << 40, quickBudget: 30 * time.Second, thorBudget: 9 * time.Minute, thorRuns: 1 << 40, level: "exploration", procShrink: 40, rlimitAS: 3 << 30,
+	"C17": {quickRuns: 1 << 40, quickBudget: 30 * time.Second, thorBudget: 9 * time.Minute, thorRuns: 1 << 40, level: "exploration", procShrink: 40, rlimitAS: 3 << 30, runTimeout: 30 * time.Second,
 		rule: "one evaluation = one simulated store round trip: 2..5 records are written (valid JSON encodings of generated values under generalized type constraints, MessagePack encodings with unknowns refined in every way and dynamic wrappers at any depth, JSON type descriptions with placeholders and optional attributes, noise over an alphabet of header bytes and JSON punctuation, hand-made extension records with 30 hostile refinement bodies and 19 bare headers with absurd lengths); one record is read back after 1..4 storage faults drawn from a per-run random subset of 11 kinds (bit flip, overwrite with a meaningful byte, torn write, lost sector, duplicated sector, misdirected read splicing a fragment of another record, zero fill, length-field edit guided by the checker's own MessagePack scanner, JSON token damage (kind swap, dropped delimiter, duplicated key, nesting up to 4000 deep, number respelling, token swap, object/array confusion), replacement of an item by a hostile refinement record, replacement by a bare header) - or undamaged in the 10% control group - through all five decoders with a target type equal to, derived from (12 edit kinds) or unrelated to the original; every implied type is fed back as a decoding target. A run is non-trivial when at least one fault changed the record or the record is noise / hand-made; distinct = distinct (codec, relation of the target type, sequence of fired faults).",
 		assumptions: []string{"memory bound: every make() in go-cty's decoder packages (seam inserted by the instrumenter) may request at most 64 KiB + 4096 x record size in total, and total allocation measured by the runtime (confirmed with exact accounting) at most 4 MiB + 16384 x record size; the constant covers the fixed 1 MB read chunk of vmihailenco/msgpack; both over-approximate peak use",
 			"decimal exponents beyond 10^6 (10^-4) in a damaged record are cut to that many digits before decoding: go-cty compares and hashes numbers through their full decimal expansion, so rendering larger ones takes minutes per operation (the effect is already reported at 10^6 through its memory footprint, see known_findings.txt)",
@@ -307,6 +308,8 @@ type workerResult struct {
 	inconclusive      int
 	unconfirmedDeaths int
 	suspects          []*violRec
+	timeouts          int
+	timeoutRuns       []uint64
 }
 
 type violRec struct {
@@ -448,7 +451,36 @@ func readResults(path string, res *workerResult) (lastStart int64, lastSim strin
 	return open, lastSim
 }
 
+// runTimed runs a helper process with a hard limit; a process that outlives it is killed and
+// reported as exit status 124 (like timeout(1)), which no caller mistakes for a reproduced failure.
+func runTimed(cmd *exec.Cmd, d time.Duration) error {
+	if err := cmd.Start(); err != nil {
+		return err
+	}
+	done := make(chan error, 1)
+	go func() { done <- cmd.Wait() }()
+	select {
+	case err := <-done:
+		return err
+	case <-time.After(d):
+		cmd.Process.Kill()
+		<-done
+		return errTimedOut
+	}
+}
+
+var errTimedOut = fmt.Errorf("helper process timed out")
+
+var checkStart = time.Now()
+
+func progress(f string, a ...interface{}) {
+	fmt.Printf("verif: [%5.1fs] %s\n", time.Since(checkStart).Seconds(), fmt.Sprintf(f, a...))
+}
+
 func exitCode(err error) int {
+	if err == errTimedOut {
+		return 124
+	}
 	if err == nil {
 		return 0
 	}
@@ -467,6 +499,9 @@ func workerEnv(cfg *propCfg) []string {
 	env := os.Environ()
 	if cfg.race {
 		env = append(env, "GORACE=halt_on_error=1 exitcode=66 history_size=7")
+	}
+	if cfg.runTimeout > 0 {
+		env = append(env, "VERIF_RUN_TIMEOUT="+cfg.runTimeout.String())
 	}
 	if cfg.rlimitAS > 0 && !cfg.race {
 		env = append(env, fmt.Sprintf("VERIF_RLIMIT_AS=%d", cfg.rlimitAS))
@@ -508,6 +543,19 @@ func runWorker(s *scratch, cfg *propCfg, prop, tier string, seed, from, n uint64
 		code := exitCode(werr)
 		if code == 0 {
 			return nil
+		}
+		if code == 78 && open >= 0 {
+			// one execution exceeded the per-run time limit: not something any property here forbids;
+			// counted, skipped, and the search continues after it in a fresh process
+			res.timeouts++
+			res.timeoutRuns = append(res.timeoutRuns, uint64(open))
+			adv := uint64(open) + 1 - from
+			from += adv
+			n -= adv
+			if res.timeouts >= 20 {
+				return nil
+			}
+			continue
 		}
 		if code == 79 && len(res.suspects) > nSus {
 			// the worker found that it carries state from one execution to the next and stopped;
@@ -617,6 +665,7 @@ func cmdCheck(args []string) {
 		die(2, "%v", err)
 	}
 	buildS := time.Since(t0).Seconds()
+	progress("scratch copy instrumented and worker built (%d map-order sites, %d yield sites)", s.nMap, s.nYield)
 
 	total := cfg.quickRuns
 	budget := cfg.quickBudget
@@ -643,6 +692,7 @@ func cmdCheck(args []string) {
 		}(w)
 	}
 	wg.Wait()
+	progress("workers finished")
 	for w, e := range errs {
 		if e != nil {
 			s.cleanup()
@@ -659,16 +709,25 @@ func cmdCheck(args []string) {
 		agg.done += r.done
 		agg.inconclusive += r.inconclusive
 		agg.suspects = append(agg.suspects, r.suspects...)
+		agg.timeouts += r.timeouts
+		agg.timeoutRuns = append(agg.timeoutRuns, r.timeoutRuns...)
 	}
 	if len(agg.nondet) > 0 {
 		s.cleanup()
 		die(2, "non-deterministic harness: %d runs did not replay identically, e.g. %s", len(agg.nondet), agg.nondet[0])
 	}
 	// process-level failures become violations after fresh-process confirmation
+	// everything after the search phase (confirmation and minimisation across fresh processes) has
+	// its own overall limit: when it runs out, what is still unconfirmed is counted, not minimised
+	confirmDeadline := time.Now().Add(4 * time.Minute)
+	if tier == "thorough" {
+		confirmDeadline = time.Now().Add(20 * time.Minute)
+	}
+	progress("%d in-process violations, %d process-level failures, %d suspects, %d timed-out runs to examine", len(agg.viols), len(agg.procFail), len(agg.suspects), agg.timeouts)
 	sort.Slice(agg.procFail, func(i, j int) bool { return agg.procFail[i].index < agg.procFail[j].index })
 	confirmedPF := 0
 	for _, pf := range agg.procFail {
-		if confirmedPF >= 3 {
+		if confirmedPF >= 3 || time.Now().After(confirmDeadline) {
 			// enough: each confirmation is minimised across fresh processes, which is slow; the rest
 			// are further deaths of the same batch and are only counted
 			agg.unconfirmedDeaths++
@@ -685,13 +744,13 @@ func cmdCheck(args []string) {
 	// suspects: violations that did not reproduce inside the worker that found them; a fresh process decides
 	sort.Slice(agg.suspects, func(i, j int) bool { return agg.suspects[i].rp.Index < agg.suspects[j].rp.Index })
 	for k, sv := range agg.suspects {
-		if k >= 3 {
+		if k >= 3 || time.Now().After(confirmDeadline) {
 			break
 		}
 		try := func(file string) bool {
 			cmd := exec.Command(s.worker, "try", "-q", "-file", file)
 			cmd.Env = workerEnv(cfg)
-			return exitCode(cmd.Run()) == 0
+			return exitCode(runTimed(cmd, 200*time.Second)) == 0
 		}
 		if !try(sv.file) {
 			s.cleanup()
@@ -700,10 +759,11 @@ func cmdCheck(args []string) {
 		// minimise across fresh processes
 		if cfg.procShrink > 0 {
 			cand := filepath.Join(s.dir, "suspect-cand.json")
+			shrinkEnd := time.Now().Add(150 * time.Second)
 			min, tests := tape.Shrink(sv.rp.Tape, func(t *tape.Tape) bool {
 				c := *sv.rp
 				c.Tape = t
-				return c.Write(cand) == nil && try(cand)
+				return time.Now().Before(shrinkEnd) && c.Write(cand) == nil && try(cand)
 			}, cfg.procShrink)
 			sv.rp.Tape, sv.rp.MinLen, sv.rp.Shrinks = min, min.Len(), tests
 			sv.rp.Write(sv.file)
@@ -712,6 +772,7 @@ func cmdCheck(args []string) {
 		sv.rp.Write(sv.file)
 		agg.viols = append(agg.viols, sv)
 	}
+	progress("confirming in-process violations in fresh processes")
 	// confirm every in-process violation in a fresh process
 	type outV struct {
 		rp    *tape.Replay
@@ -735,7 +796,7 @@ func cmdCheck(args []string) {
 		if v.rp.Extra["process_level"] == "" && v.rp.Extra["needs_fresh_process"] == "" {
 			cmd := exec.Command(s.worker, "replay", "-q", "-file", v.file)
 			cmd.Env = workerEnv(cfg)
-			err := cmd.Run()
+			err := runTimed(cmd, 200*time.Second)
 			if code := exitCode(err); code != 1 && v.rp.Class == "excessive-allocation" {
 				// decided on a measured quantity (bytes allocated): not reproducing in a fresh process is
 				// inconclusive, never reported and never a harness fault
@@ -759,6 +820,12 @@ func cmdCheck(args []string) {
 		fmt.Printf("VIOLATION property=%s replay=%s\n", v.rp.Property, v.file)
 		fmt.Printf("  class=%s signature=%s sim=%s index=%d tape %d->%d draws\n  %s\n", v.rp.Class, v.rp.Signature, v.rp.Sim, v.rp.Index, v.rp.OrigLen, v.rp.MinLen,
 			strings.ReplaceAll(v.rp.Detail, "\n", "\n  "))
+	}
+	if agg.timeouts > 0 {
+		fmt.Printf("NOTE: %d runs exceeded the per-run time limit and were skipped (CPU time is not part of this property; indices are in the evidence file)\n", agg.timeouts)
+	}
+	if agg.unconfirmedDeaths > 0 {
+		fmt.Printf("NOTE: %d further worker deaths of this batch were not minimised (limit reached)\n", agg.unconfirmedDeaths)
 	}
 	wall := time.Since(t0).Seconds()
 	if err := writeEvidence(prop, tier, seed, cfg, s, agg, nViol, len(confirmed)-nViol, wall, buildS, workers); err != nil {
@@ -784,7 +851,7 @@ func confirmProcFailure(s *scratch, cfg *propCfg, prop, tier string, seed uint64
 		var se bytes.Buffer
 		cmd.Stderr = &se
 		cmd.Stdout = &se
-		err := cmd.Run()
+		err := runTimed(cmd, 200*time.Second)
 		return exitCode(err), se.String()
 	}
 	code, se := runIdx()
@@ -808,12 +875,13 @@ func confirmProcFailure(s *scratch, cfg *propCfg, prop, tier string, seed uint64
 		}
 		cmd := exec.Command(s.worker, "try", "-q", "-file", f)
 		cmd.Env = workerEnv(cfg)
-		return exitCode(cmd.Run()) == pf.exit
+		return exitCode(runTimed(cmd, 200*time.Second)) == pf.exit
 	}
 	min := rp.Tape
 	tests := 0
+	shrinkEnd := time.Now().Add(150 * time.Second)
 	if cfg.procShrink > 0 && try(rp.Tape) {
-		min, tests = tape.Shrink(rp.Tape, try, cfg.procShrink)
+		min, tests = tape.Shrink(rp.Tape, func(t *tape.Tape) bool { return time.Now().Before(shrinkEnd) && try(t) }, cfg.procShrink)
 	}
 	if len(se) > 6000 {
 		se = se[:6000]
